@@ -27,7 +27,7 @@ func RunScenario(base string, tmpls []*Template, t *Tool, r *gen.Rand, nRounds i
 			w.MutateIndex(r)
 		}
 		kind := "sync"
-		if i > 0 && r.Chance(1, 4) {
+		if i > 0 && r.Chance(1, 3) {
 			kind = "remove"
 		}
 		emit(w.RunRound(r, t, kind, withPreview))
